@@ -22,3 +22,33 @@ def run(tier):
     reps.append(deductive.lemma_report(('total-estimate-exact-when-noise-free', 'inverse-variance-weights-minimise-the-variance[n=2,3]'),
                                        title='lemmas over the verified total-estimate formula'))
     return reps
+
+
+def replay(prop, ob):
+    """Native replay of the `_setup` / `estimate` obligations about which total the installed model carries: one estimator (warm start on),
+    estimate twice over the same cliques with different totals - supplied, then omitted with noise-free answers of N records."""
+    if not any(k in ob.name for k in ('installed-model-carries-the-total', 'solver-gets-the-callers-total', 'model-total', 'setup-with-the-callers-total')):
+        return None
+    import numpy as np
+    from .. import env
+    env.ensure_repo_importable()
+    from mbi import Domain, FactoredInference, LocalInference
+    dom = Domain(['a', 'b'], [2, 3])
+    local = 'LocalInference' in ob.name or 'local_inference' in ob.name
+    rows = []
+    bad = False
+    try:
+        est = LocalInference(dom, iters=2, warm_start=True) if local else FactoredInference(dom, iters=2, warm_start=True)
+        for supplied, N in ((400.0, 60), (None, 250), (7.0, 30)):
+            x = np.array([0.5, 0.5]) * N
+            y2 = np.array([0.2, 0.3, 0.5]) * N
+            ms = [(np.eye(2), x, 1.0, ('a',)), (np.eye(3), y2, 1.0, ('b',))]
+            model = est.estimate(ms, total=supplied)
+            want = supplied if supplied is not None else float(N)
+            got = float(model.total)
+            rows.append(dict(supplied=supplied, records=N, model_total=got, expected=want))
+            bad = bad or abs(got - want) > 1e-6 * max(1.0, want)
+    except Exception as e:
+        return dict(reproduced=True, inputs=dict(estimator='LocalInference' if local else 'FactoredInference', calls=rows), raised='%s: %s' % (type(e).__name__, e))
+    return dict(reproduced=bool(bad), inputs=dict(estimator='LocalInference' if local else 'FactoredInference', warm_start=True, domain='a:2,b:3',
+                                                    measurements='identity on (a) and (b), noise-free'), calls=rows)
